@@ -232,6 +232,42 @@ def probe_multiget_independence(seed, limit):
                 return {"input": {"requests": [["REPORT", CAL, {}, "multiget " + " ".join(hrefs)]]},
                         "expected": f"{h} answered once, as when it is requested alone: {alone and alone.get(h)}",
                         "observed": f"{together.get(h)}"}
+        # C17 "every distinct requested href exactly once": literal repeats (of existing, missing, absolute-URL,
+        # percent-encoded and outside-the-prefix hrefs) never add answers; every addressed path is answered
+        s2 = Server(prefix="/dav")
+        try:
+            P = "/dav" + CAL
+            s2.request("PUT", CAL + "a.ics", {"Content-Type": "text/calendar"}, ics("u-a", 0))
+            s2.request("PUT", CAL + "b.ics", {"Content-Type": "text/calendar"}, ics("u-b", 0))
+            lists = [
+                [P + "a.ics", P + "b.ics", P + "a.ics"],
+                [P + "missing.ics", P + "a.ics", P + "missing.ics"],
+                ["/other/x.ics", P + "a.ics", "/other/x.ics"],
+                ["http://localhost" + P + "a.ics", P + "b.ics", "http://localhost" + P + "a.ics"],
+                [P + "%61.ics", P + "%61.ics", P + "b.ics"],
+                [P + "a.ics", "http://localhost" + P + "a.ics", P + "%61.ics", P + "b.ics"],
+            ]
+            for hs in lists:
+                body = ("<C:calendar-multiget xmlns:D='DAV:' xmlns:C='urn:ietf:params:xml:ns:caldav'><D:prop><D:getetag/></D:prop>"
+                        + "".join(f"<D:href>{h}</D:href>" for h in hs) + "</C:calendar-multiget>").encode()
+                r = s2.request("REPORT", CAL, {"Content-Type": "text/xml", "Depth": "1"}, body)
+                inp = {"requests": [["REPORT", P, {}, "multiget " + " ".join(hs)]], "script_name": "/dav"}
+                if r["status"] != 207:
+                    return {"input": inp, "expected": "207", "observed": r["status"]}
+                answered = [x.find("{DAV:}href").text for x in ET.fromstring(r["body"]).findall("{DAV:}response")]
+
+                def path_of(h):
+                    h = urllib.parse.unquote(urllib.parse.urlsplit(h).path)
+                    return h
+                for h in set(answered):
+                    if answered.count(h) != 1:
+                        return {"input": inp, "expected": f"{h} answered exactly once", "observed": f"answered {answered.count(h)} times: {answered}"}
+                if {path_of(h) for h in answered} != {path_of(h) for h in hs}:
+                    return {"input": inp, "expected": f"one answer for each of {sorted({path_of(h) for h in hs})}", "observed": f"{answered}"}
+                if len(answered) > len({path_of(h) for h in hs}) and len(set(hs)) == len({path_of(h) for h in hs}):
+                    return {"input": inp, "expected": f"{len(set(hs))} answers", "observed": f"{answered}"}
+        finally:
+            s2.close()
         # delete + re-create at the same URL
         def tags(url):
             r = s.request("PROPFIND", url, {"Depth": "0", "Content-Type": "text/xml"},
@@ -691,6 +727,12 @@ class Http:
             bad = model_run([tuple(o) for o in i["history"]], i.get("prefix", ""))
             if bad:
                 return {"reproduced": True, "input": i, "expected": bad["expected"], "observed": str(bad["observed"])}
+            return {"reproduced": False}
+        if "script_name" in i:
+            # a multiget probe: its request list is rebuilt by the probe itself
+            bad = probe_multiget_independence(int(req.get("seed", 0) or 0), 6)
+            if bad:
+                return {"reproduced": True, "input": bad["input"], "expected": bad["expected"], "observed": str(bad["observed"])}
             return {"reproduced": False}
         s = Server()
         try:
